@@ -7,7 +7,7 @@ from ..harness import scn, gen, obs as O, pyeval, impl
 from . import base_scn
 
 pid = 'C06'
-gen_modules = ['tr_state', 'tr_validators', 'tr_has_patcher', 'tr_contracts', 'tr_decorators', 'tr_pin_contracts', 'tr_rest_validators', 'tr_rest_patcher', 'tr_rest_state', 'tr_rest_contractsconst', 'tr_rest_decorators']
+gen_modules = ['tr_state', 'tr_validators', 'tr_has_patcher', 'tr_contracts', 'tr_decorators', 'tr_pin_contracts', 'tr_rest_validators', 'tr_rest_patcher', 'tr_rest_state', 'tr_rest_contractsconst', 'tr_rest_decorators', 'tr_pin_inherit']
 model_targets = ['Sem/Scenario.v']
 hand_modelled = ['functools.update_wrapper / inspect metadata: not modelled (checked on the implementation by the monitor)']
 explanation = ('Theorems: with contracts disabled the generated wrappers are the original call; with every validator accepting, the sync/async '
@@ -222,6 +222,18 @@ def check(kind):
                     if got != orig(7): alias_ok = f"{alias.__name__}({label}) [{'enabled' if enabled_ else 'disabled'}]: {got!r} != {orig(7)!r}"
         finally:
             deal.enable()
+    # a method that inherits an always-true contract, first reached through an instance whose truth value is False
+    class Box:
+        def __init__(self): self.items = []
+        def __len__(self): return len(self.items)
+        @deal.pre(lambda self, item: True)
+        def push(self, item): self.items.append(item); return self
+    class Stack(Box):
+        @deal.inherit
+        def push(self, item): self.items.append(item); return self
+    st = Stack()
+    try: falsy_ok = st.push(1) is st and st.push(2) is st and len(st) == 2
+    except BaseException as e: falsy_ok = type(e).__name__
     # satisfied marker contracts nested in each other (the inner function is called for the first time from inside the outer one)
     @deal.has()
     def inner(x): return x
@@ -233,6 +245,7 @@ def check(kind):
     try: nested = outer(token) is token and middle(token) is token and inner(token) is token
     except BaseException as e: nested = type(e).__name__
     return {
+        "inherited_contract_on_falsy_instance": falsy_ok,
         "aliases_on_any_callable": alias_ok,
         "nested_has_transparent": nested,
         "wrapped_other_kind": kinds_kept, "wrapped_other_kind_disabled": kinds_kept_disabled,
